@@ -50,12 +50,8 @@ def _cancel_eof(o):
 
 
 FINDING_CLASSES = {
-    "F5a": _acked_transaction,
-    "F5a.slice": lambda o: o.self._pdus_to_be_sent.length() > 0,
-    "F5a.root": lambda o: eq(o.self._params.pdu_conf.trans_mode, ACK),
-    "F5b": lambda o: And_(_file_data_packet(o), _acked_transaction(o)),
     "F5c": _some_abandon,
-    "F13": _file_data_packet,
+    "F13c": _file_data_packet,
     "F13b": _eof_packet,
     "F16": _cancel_eof,
     "F21": _cancel_eof,
